@@ -799,7 +799,7 @@ def m_vec_new(ex, c, a, m):
     return []
 
 
-@model(r'Vec::<.+>::(len|is_empty|push|pop|truncate|clear|last|first|insert|remove|extend|reverse|sort|dedup|as_slice|iter|contains|append|retain)(::<.*>)?|core::slice::<impl \[.+\]>::(len|is_empty|iter|last|first|contains|to_vec)|std::slice::<impl \[.+\]>::to_vec|<Vec<.+> as Clone>::clone|<Vec<.+> as Deref>::deref')
+@model(r'Vec::<.+>::(len|is_empty|push|pop|truncate|clear|last|first|insert|remove|extend|reverse|as_slice|iter|contains|append|retain)(::<.*>)?|core::slice::<impl \[.+\]>::(len|is_empty|iter|last|first|contains|to_vec)|std::slice::<impl \[.+\]>::to_vec|<Vec<.+> as Clone>::clone|<Vec<.+> as Deref>::deref')
 def m_vec(ex, c, a, m):
     op = m.group(1) or m.group(3)
     if op is None:
@@ -1254,6 +1254,19 @@ def _bytes_lt(ex, x, y):
     return len(x) < len(y)
 
 
+@model(r'<(str|String|&str|&String) as Ord>::cmp|<(str|String|&str|&String) as PartialOrd(<.+>)?>::(partial_cmp|lt|le|gt|ge)')
+def m_str_cmp(ex, c, a, m):
+    """bytewise (= code point) order of strings"""
+    x, y = as_S(a[0]), as_S(a[1])
+    op = 'cmp' if c.endswith('::cmp') else m.group(4)
+    lt = _bytes_lt(ex, x, y)
+    eq = (not lt) and len(x) == len(y) and ex.branch(seq_eq(x, y))
+    if op in ('cmp', 'partial_cmp'):
+        o = Adt('Ordering', 'Less' if lt else ('Equal' if eq else 'Greater'), [])
+        return o if op == 'cmp' else Some(o)
+    return {'lt': lt, 'le': lt or eq, 'gt': not lt and not eq, 'ge': not lt}[op]
+
+
 def _sorted_items(ex, items):
     out = []
     for e in items:
@@ -1264,6 +1277,19 @@ def _sorted_items(ex, items):
                 break
         out.insert(pos, e)
     return out
+
+
+@model(r'core::slice::<impl \[.+\]>::binary_search_by::<.+>')
+def m_binary_search_by(ex, c, a, m):
+    v = d(a[0])
+    less = 0
+    for i in range(len(v)):
+        o = d(ex.call_closure(a[1], [Ref(v, i)]))
+        if o.variant == 'Equal':
+            return Ok(i)
+        if o.variant == 'Less':
+            less += 1
+    return Err(less)
 
 
 @model(r'core::slice::<impl \[String\]>::(sort|sort_unstable|binary_search)|Vec::<String>::(sort|sort_unstable|dedup|binary_search)')
